@@ -428,6 +428,52 @@ func runC19(c *Ctx) {
 	wrappersPropagate(c)
 	storeSuccessPublishes(c)
 	retrieveReadsWholeEntry(c)
+	// Store and Retrieve keep nothing on the backend between calls: a cached "directory is ready"
+	// or "entry seen" flag makes a later call skip a check whose outcome may have changed
+	const RS = "backend-keeps-no-state"
+	c.rule(RS, "FileSystem.Store and FileSystem.Retrieve (and what they call) do not write memory reachable from their receiver: every call re-establishes the directory and reads the entry afresh")
+	{
+		o := newOrigins(c.P)
+		for _, n := range []string{storeFn, retrieveFn} {
+			fn := c.P.Func(n)
+			if fn == nil {
+				c.undecided(RS, "anchor:"+n, "-", "method not found")
+				continue
+			}
+			var w []mutation
+			if ss := o.sums[fn]; ss != nil {
+				for _, m := range ss.muts {
+					if m.param == 0 {
+						w = append(w, m)
+					}
+				}
+			}
+			if len(w) > 0 {
+				c.bad(RS, n, c.P.Pos(w[0].pos), describeMuts(c, n, "receiver", w))
+			} else {
+				c.ok(RS, n, c.P.Pos(fn.Pos()), "the receiver is only read")
+			}
+		}
+	}
+	// "… produces an error return and never … a panic": the guard analysis over the storage code —
+	// the document and options handed to Store may be absent, the bytes read back may be empty
+	const RG = "absent-part-guard"
+	c.rule(RG, guardRuleText)
+	saved := untrustedStructPkgs
+	untrustedStructPkgs = protobomMessagePkgs
+	e := newNilEngine(c)
+	for _, n := range []string{storeFn, retrieveFn} {
+		e.entry[n] = true
+	}
+	e.trusted[storeFn+"#fs"] = true
+	e.trusted[retrieveFn+"#fs"] = true
+	for _, d := range c.reachDecls(RG, storeFn, retrieveFn) {
+		if strings.HasPrefix(d.name, "storage.") {
+			e.analyse(d)
+		}
+	}
+	e.emit(RG)
+	untrustedStructPkgs = saved
 }
 
 // storeGuards: C19-D4.
